@@ -38,6 +38,7 @@ const L_DIRECT: &str = "C08.bounded.trades_query_account_state";
 const L_OOO: &str = "C08.bounded.trades_query_out_of_order_times";
 const L_SNAP_BAL: &str = "C08.bounded.snapshot_balances_equal_ledger";
 const L_SNAP_ORD: &str = "C08.bounded.snapshot_no_resting_orders";
+const L_NOTIFY: &str = "C08.bounded.one_balance_and_one_trade_notification_per_fill";
 const L_SNAP_FETCH: &str = "C08.bounded.snapshot_agrees_with_fetch_balances";
 
 #[derive(Clone, Copy, Debug, PartialEq, Eq)]
@@ -213,6 +214,39 @@ async fn case_run_loop(steps: &[Step], fee: Decimal, latency_ms: u64, subscribed
     let _ = handle.await;
 }
 
+/// 'each accepted order ... announced by one balance and one trade notification' - whoever still waits for the response: the requester of
+/// the requests in `abandon` drops its response receiver at once (a timed-out / cancelled request future); a subscriber of the broadcast listens
+async fn case_notifications(steps: &[Step], fee: Decimal, latency_ms: u64, abandon: &[bool], seen: &mut HashSet<&'static str>) {
+    let (ex, tx, mut erx) = exchange(fee, latency_ms);
+    let handle = tokio::spawn(ex.run());
+    let mut now = t0();
+    let input = format!("MockExchange::run with one subscriber of the account-event broadcast, fee={fee}, latency_ms={latency_ms}, price={PRICE}, balances(btc=10, usdt=100, eth=7); open-order requests (time offset ms, kind, qty, requester stops waiting for the response at once?): {:?}",
+        steps.iter().zip(abandon).scan(0i64, |t, (s, a)| { *t += s.dt_ms; Some((*t, s.kind, s.qty, *a)) }).collect::<Vec<_>>());
+    let mut ck = Checker { seen, input };
+    for (k, s) in steps.iter().enumerate() {
+        now += TimeDelta::milliseconds(s.dt_ms);
+        let (rtx, rrx) = oneshot::channel();
+        if abandon[k] { drop(rrx); if tx.send(MockExchangeRequest::open_order(now, rtx, request(k, s))).is_err() { return; } }
+        else { if tx.send(MockExchangeRequest::open_order(now, rtx, request(k, s))).is_err() { return; } if rrx.await.is_err() { return; } }
+    }
+    // let every latency timer fire
+    tokio::time::sleep(std::time::Duration::from_millis(2 * latency_ms + 50)).await;
+    now += TimeDelta::milliseconds(1);
+    let (rtx, rrx) = oneshot::channel();
+    if tx.send(MockExchangeRequest::fetch_trades(t0() + TimeDelta::days(1), rtx, t0() - TimeDelta::days(1))).is_err() { return; }
+    let _ = now;
+    let Ok(logged) = rrx.await else { return; };
+    let (mut trades, mut balances) = (0usize, 0usize);
+    while let Ok(ev) = erx.try_recv() {
+        match ev.kind { barter_execution::AccountEventKind::Trade(_) => trades += 1, barter_execution::AccountEventKind::BalanceSnapshot(_) => balances += 1, _ => {} }
+    }
+    if trades != logged.len() || balances != logged.len() {
+        ck.fail(L_NOTIFY, format!("{} fill(s) in the trade log; {trades} trade and {balances} balance notification(s) on the broadcast", logged.len()), "one trade and one balance notification per fill".into());
+    }
+    drop(tx);
+    let _ = handle.await;
+}
+
 /// the same without the run loop: `open_order` + `ack_trade` (what `run()` does), then `AccountState::trades` / `account_snapshot`
 fn case_direct(steps: &[Step], fee: Decimal, seen: &mut HashSet<&'static str>) {
     let (mut ex, _tx, _erx) = exchange(fee, 0);
@@ -279,6 +313,7 @@ pub fn run(seed: u64, thorough: bool) -> u64 {
                 let latency = if code % 3 == 2 { 6 } else { 0 };
                 case_run_loop(&steps, fee, latency, true, &mut seen).await;
                 if code % 4 == 1 || thorough { case_run_loop(&steps, fee, latency, false, &mut seen).await; }
+                if len <= 2 || thorough { for pat in 0..(1usize << len) { let abandon: Vec<bool> = (0..len).map(|k| pat >> k & 1 == 1).collect(); case_notifications(&steps, fee, [0u64, 6][code % 2], &abandon, &mut seen).await; } }
                 if code % 4 == 0 || thorough { case_direct(&steps, fee, &mut seen); }
                 n += 1;
             }
